@@ -7,7 +7,9 @@ use crate::shim::*;
 use crate::util::*;
 use crate::wire::{self, PVal, Param};
 
-const NEAR_MISS: [&str; 36] = [
+pub const NEAR_MISS: [&str; 44] = [
+    // (punctuation that a careless case fold maps onto the built-in prefixes: '`' onto '@', NUL onto ' ')
+    "SELECT `@timestamp`, message FROM logs", "SELECT @`my var`", "select ``.c FROM t AS ``", "SELECT `@", "select @`", "USE\0db", "use\0`db`", "SELECT\0@@x",
     "SELECT 1\0", "a\0b", "\0", "USE db\0", "SELECT @@max_allowed_packet\0", "x\0\0",
     "/* app=orm */ SELECT @@max_allowed_packet", "/* x */USE db", "/*!40101 SET NAMES utf8 */", "/**/", "/* x */ select 1", "-- c\nSELECT @@x", "# c\nUSE db", "(SELECT @@x)", ";USE db", "/*!40101 SET NAMES utf8 */;", "/* unterminated SELECT @@x", "/* a */ /* b */ USE `db`;",
     "SELECT @x", "SELECT @", "SELECT  @@x", "select@@x", "SELECT@@x", " SELECT @@x", "Select 1", "USER()", "USEfoo", "used", "use", "us", "USE", "u", "SELECT",
